@@ -15,6 +15,7 @@ class LoopSpec:
     inv: list[str] = field(default_factory=list)
     decreases: str | None = None
     header: str | None = None         # expected source text of the loop header (attachment pin)
+    unfold: list[str] = field(default_factory=list)   # sequences whose visited prefix is unfolded each iteration: Take(s,k+1)=Take(s,k)++[s[k]]
     cut: list[str] | None = None      # summarise-and-forget point just before the loop: assert these, forget the rest
 
 
